@@ -1,0 +1,494 @@
+//go:build verif
+
+package align
+
+// Bounded stand-ins for C08 (optimal score) and C09 (well-formed, faithfully scored, type-independent
+// descriptions; errors instead of panics). Every aligner is run on every pair of short sequences over a small
+// letter set with a handful of matrices, and compared with an oracle that enumerates every alignment path.
+// Only compiled with -tags verif.
+
+import (
+	"fmt"
+	"os"
+	"sort"
+	"testing"
+
+	"github.com/biogo/biogo/alphabet"
+	"github.com/biogo/biogo/feat"
+	"github.com/biogo/biogo/seq/linear"
+)
+
+type verifModel struct {
+	m      Linear
+	open   int
+	affine bool
+}
+
+// best score over all global alignments of r against q (letter indices), by enumeration of every path.
+func (s verifModel) global(r, q []int) int { return s.globalPaths(r, q, true) }
+
+// globalPaths: switching=false leaves out the paths in which a gap in one sequence is directly followed by a gap in the other.
+func (s verifModel) globalPaths(r, q []int, switching bool) int {
+	best := minInt
+	var rec func(i, j, score int, last int)
+	rec = func(i, j, score int, last int) {
+		if i == len(r) && j == len(q) {
+			if score > best {
+				best = score
+			}
+			return
+		}
+		if i < len(r) && j < len(q) {
+			rec(i+1, j+1, score+s.m[r[i]][q[j]], diag)
+		}
+		if i < len(r) && (switching || last != left) {
+			g := s.m[r[i]][gap]
+			if s.affine && last != up {
+				g += s.open
+			}
+			rec(i+1, j, score+g, up)
+		}
+		if j < len(q) && (switching || last != up) {
+			g := s.m[gap][q[j]]
+			if s.affine && last != left {
+				g += s.open
+			}
+			rec(i, j+1, score+g, left)
+		}
+	}
+	rec(0, 0, 0, diag)
+	return best
+}
+
+func (s verifModel) local(r, q []int) int {
+	best := 0
+	for a := 0; a <= len(r); a++ {
+		for b := a; b <= len(r); b++ {
+			for c := 0; c <= len(q); c++ {
+				for d := c; d <= len(q); d++ {
+					if v := s.global(r[a:b], q[c:d]); v > best {
+						best = v
+					}
+				}
+			}
+		}
+	}
+	return best
+}
+
+// best score over alignments of the whole query against a part of the reference ending at e.
+func (s verifModel) fitted(r, q []int, e int) int {
+	best := minInt
+	for a := 0; a <= e; a++ {
+		if v := s.global(r[a:e], q); v > best {
+			best = v
+		}
+	}
+	return best
+}
+
+// score of one reported pair recomputed from the letters.
+func (s verifModel) pairScore(r, q []int, p *featPair) (int, error) {
+	al, bl := p.a.end-p.a.start, p.b.end-p.b.start
+	switch {
+	case al == 0 && bl == 0:
+		return 0, nil
+	case al == bl:
+		v := 0
+		for k := 0; k < al; k++ {
+			v += s.m[r[p.a.start+k]][q[p.b.start+k]]
+		}
+		return v, nil
+	case bl == 0:
+		v := 0
+		if s.affine {
+			v = s.open
+		}
+		for k := p.a.start; k < p.a.end; k++ {
+			v += s.m[r[k]][gap]
+		}
+		return v, nil
+	case al == 0:
+		v := 0
+		if s.affine {
+			v = s.open
+		}
+		for k := p.b.start; k < p.b.end; k++ {
+			v += s.m[gap][q[k]]
+		}
+		return v, nil
+	}
+	return 0, fmt.Errorf("pair %v is neither an ungapped block nor a gap in exactly one sequence", p)
+}
+
+// verifDeviation is a failed clause; finding is non-empty when the failure falls into a recorded class of known findings.
+type verifDeviation struct {
+	finding string
+	msg     string
+}
+
+func (d *verifDeviation) Error() string { return d.msg }
+
+const (
+	verifGlobal = iota
+	verifLocal
+	verifFitted
+)
+
+type verifAligner struct {
+	name   string
+	kind   int
+	affine bool
+	mk     func(m Linear, open int) Aligner
+}
+
+var verifAligners = []verifAligner{
+	{"NW", verifGlobal, false, func(m Linear, _ int) Aligner { return NW(m) }},
+	{"SW", verifLocal, false, func(m Linear, _ int) Aligner { return SW(m) }},
+	{"Fitted", verifFitted, false, func(m Linear, _ int) Aligner { return Fitted(m) }},
+	{"NWAffine", verifGlobal, true, func(m Linear, o int) Aligner { return NWAffine{Matrix: m, GapOpen: o} }},
+	{"SWAffine", verifLocal, true, func(m Linear, o int) Aligner { return SWAffine{Matrix: m, GapOpen: o} }},
+	{"FittedAffine", verifFitted, true, func(m Linear, o int) Aligner { return FittedAffine{Matrix: m, GapOpen: o} }},
+}
+
+// matrices over "-acgt" (gap first): match, mismatch, gap-in-query (row letter vs gap), gap-in-reference.
+func verifMatrix(match, mismatch, gapQ, gapR int, asym bool) Linear {
+	m := make(Linear, 5)
+	for i := range m {
+		m[i] = make([]int, 5)
+		for j := range m[i] {
+			switch {
+			case i == 0 && j == 0:
+			case j == 0:
+				m[i][j] = gapQ
+			case i == 0:
+				m[i][j] = gapR
+			case i == j:
+				m[i][j] = match
+			default:
+				m[i][j] = mismatch
+				if asym && i < j {
+					m[i][j] = mismatch + 2
+				}
+			}
+		}
+	}
+	return m
+}
+
+type verifNamedMatrix struct {
+	name string
+	m    Linear
+}
+
+func verifMatrices() []verifNamedMatrix {
+	return []verifNamedMatrix{
+		{"unit(1,-1,-1): ties everywhere", verifMatrix(1, -1, -1, -1, false)},
+		{"blastlike(2,-3,-1)", verifMatrix(2, -3, -1, -1, false)},
+		{"asymmetric(2,-2/0,-1,-2)", verifMatrix(2, -2, -1, -2, true)},
+		{"zero gaps(1,-1,0)", verifMatrix(1, -1, 0, 0, false)},
+		{"harsh mismatch(1,-9,-1)", verifMatrix(1, -9, -1, -1, false)},
+	}
+}
+
+func verifWords(letters string, maxLen int) []string {
+	out := []string{}
+	var rec func(w string)
+	rec = func(w string) {
+		if len(w) > 0 {
+			out = append(out, w)
+		}
+		if len(w) == maxLen {
+			return
+		}
+		for _, l := range letters {
+			rec(w + string(l))
+		}
+	}
+	rec("")
+	return out
+}
+
+func verifIdx(w string) []int {
+	idx := alphabet.DNAgapped.LetterIndex()
+	out := make([]int, len(w))
+	for i := range w {
+		out[i] = idx[w[i]]
+	}
+	return out
+}
+
+func verifSeqs(w string) (*linear.Seq, *linear.QSeq) {
+	s := linear.NewSeq("s", alphabet.BytesToLetters([]byte(w)), alphabet.DNAgapped)
+	ql := make([]alphabet.QLetter, len(w))
+	for i := range w {
+		ql[i] = alphabet.QLetter{L: alphabet.Letter(w[i]), Q: alphabet.Qphred(10 + i)}
+	}
+	q := linear.NewQSeq("s", ql, alphabet.DNAgapped, alphabet.Sanger)
+	return s, q
+}
+
+func verifPairs(aln []feat.Pair) ([]*featPair, error) {
+	var out []*featPair
+	for _, p := range aln {
+		fp, ok := p.(*featPair)
+		if !ok {
+			return nil, fmt.Errorf("unexpected pair type %T", p)
+		}
+		out = append(out, fp)
+	}
+	return out, nil
+}
+
+// verifCheck runs one aligner on one input and checks C08 and C09; optimal reports whether the C08 clause held.
+func verifCheck(al verifAligner, mod verifModel, rw, qw string) (c08, c09 error) {
+	defer func() {
+		if e := recover(); e != nil {
+			c09 = fmt.Errorf("panic: %v", e)
+		}
+	}()
+	r, q := verifIdx(rw), verifIdx(qw)
+	rs, rq := verifSeqs(rw)
+	qs, qq := verifSeqs(qw)
+	a := al.mk(mod.m, mod.open)
+	aln, err := a.Align(rs, qs)
+	if err != nil {
+		return nil, fmt.Errorf("unexpected error %v", err)
+	}
+	ps, err := verifPairs(aln)
+	if err != nil {
+		return nil, err
+	}
+	// well-formedness (C09)
+	total := 0
+	for k, p := range ps {
+		if p.a.start < 0 || p.a.end > len(r) || p.b.start < 0 || p.b.end > len(q) || p.a.start > p.a.end || p.b.start > p.b.end {
+			return nil, fmt.Errorf("pair %d %v out of bounds", k, p)
+		}
+		if k > 0 && (ps[k-1].a.end != p.a.start || ps[k-1].b.end != p.b.start) {
+			return nil, fmt.Errorf("pairs %d %v and %d %v do not abut", k-1, ps[k-1], k, p)
+		}
+		want, err := mod.pairScore(r, q, p)
+		if err != nil {
+			return nil, err
+		}
+		if p.score != want {
+			d := &verifDeviation{msg: fmt.Sprintf("pair %d %v reports score %d, recomputed %d", k, p, p.score, want)}
+			if al.affine {
+				// recorded: the affine tracebacks compare the cell with predecessor formulas of every layer, not only the current one
+				d.finding = al.name + ".segment-scores"
+			}
+			return nil, d
+		}
+		total += p.score
+	}
+	switch al.kind {
+	case verifGlobal:
+		if len(ps) == 0 || ps[0].a.start != 0 || ps[0].b.start != 0 || ps[len(ps)-1].a.end != len(r) || ps[len(ps)-1].b.end != len(q) {
+			return nil, fmt.Errorf("global alignment %v does not span both sequences", ps)
+		}
+	case verifFitted:
+		if len(ps) == 0 || ps[0].b.start != 0 || ps[len(ps)-1].b.end != len(q) {
+			d := &verifDeviation{msg: fmt.Sprintf("fitted alignment %v does not consume the whole query", ps)}
+			if al.affine {
+				d.finding = al.name + ".query-not-consumed"
+			}
+			c08 = d
+		}
+	}
+	// the same pairs for quality letters (C09)
+	alnq, err := a.Align(rq, qq)
+	if err != nil {
+		return c08, fmt.Errorf("quality letters: unexpected error %v", err)
+	}
+	psq, err := verifPairs(alnq)
+	if err != nil {
+		return c08, err
+	}
+	if len(psq) != len(ps) {
+		return c08, fmt.Errorf("quality letters give %v, plain letters %v", psq, ps)
+	}
+	for k := range ps {
+		if ps[k].a.start != psq[k].a.start || ps[k].a.end != psq[k].a.end || ps[k].b.start != psq[k].b.start || ps[k].b.end != psq[k].b.end || ps[k].score != psq[k].score {
+			return c08, fmt.Errorf("quality letters give %v, plain letters %v", psq, ps)
+		}
+	}
+	// Format: two equal-length rows that reduce to the aligned subsequences
+	if len(ps) > 0 {
+		f := Format(rs, qs, aln, '-')
+		ra, rb := f[0].(alphabet.Letters), f[1].(alphabet.Letters)
+		if len(ra) != len(rb) {
+			return c08, fmt.Errorf("Format rows differ in length: %q %q", ra, rb)
+		}
+		strip := func(l alphabet.Letters) string {
+			s := ""
+			for _, x := range l {
+				if x != '-' {
+					s += string(rune(x))
+				}
+			}
+			return s
+		}
+		if strip(ra) != rw[ps[0].a.start:ps[len(ps)-1].a.end] || strip(rb) != qw[ps[0].b.start:ps[len(ps)-1].b.end] {
+			return c08, fmt.Errorf("Format rows %q %q do not reduce to the aligned parts of %q %q (%v)", ra, rb, rw, qw, ps)
+		}
+	}
+	if c08 != nil {
+		return c08, nil
+	}
+	// optimality (C08)
+	var want int
+	switch al.kind {
+	case verifGlobal:
+		want = mod.global(r, q)
+	case verifLocal:
+		want = mod.local(r, q)
+	case verifFitted:
+		want = mod.fitted(r, q, ps[len(ps)-1].a.end)
+	}
+	if total != want {
+		d := &verifDeviation{msg: fmt.Sprintf("alignment %v scores %d, the optimum is %d", ps, total, want)}
+		switch {
+		case al.name == "NWAffine" && total == mod.globalPaths(r, q, false):
+			// recorded: optimal among the alignments in which no gap is directly followed by a gap in the other sequence
+			d.finding = "NWAffine.no-gap-switch"
+		case (al.name == "SWAffine" || al.name == "FittedAffine") && total < want:
+			d.finding = al.name + ".suboptimal"
+		}
+		c08 = d
+	}
+	return c08, nil
+}
+
+func verifClass(err error) string {
+	s := err.Error()
+	for _, k := range []string{"does not consume", "the optimum is", "reports score", "do not abut", "out of bounds", "panic", "quality letters", "Format", "does not span", "neither"} {
+		if len(s) >= len(k) {
+			for i := 0; i+len(k) <= len(s); i++ {
+				if s[i:i+len(k)] == k {
+					return k
+				}
+			}
+		}
+	}
+	return "other"
+}
+
+func verifScope() (letters string, maxLen int, opens []int) {
+	if os.Getenv("VERIF_TIER") == "thorough" {
+		return "acg", 4, []int{0, -1, -3}
+	}
+	return "ac", 3, []int{0, -2}
+}
+
+func verifRun(t *testing.T, which string) {
+	letters, maxLen, opens := verifScope()
+	words := verifWords(letters, maxLen)
+	cases, nontrivial := 0, 0
+	seen := map[string]bool{}
+	findings, examples := map[string]int{}, map[string]string{}
+	for _, al := range verifAligners {
+		os := []int{0}
+		if al.affine {
+			os = opens
+		}
+		for _, nm := range verifMatrices() {
+			for _, open := range os {
+				mod := verifModel{m: nm.m, open: open, affine: al.affine}
+				for _, rw := range words {
+					for _, qw := range words {
+						cases++
+						c08, c09 := verifCheck(al, mod, rw, qw)
+						err := c08
+						if which == "C09" {
+							err = c09
+						}
+						if err == nil {
+							if rw != qw {
+								nontrivial++
+							}
+							continue
+						}
+						if d, ok := err.(*verifDeviation); ok && d.finding != "" {
+							if findings[d.finding] == 0 {
+								examples[d.finding] = fmt.Sprintf("%s matrix %s gap-open %d reference %s query %s: %v", al.name, nm.name, open, rw, qw, err)
+							}
+							findings[d.finding]++
+							continue
+						}
+						key := al.name + "|" + nm.name + "|" + verifClass(err)
+						if !seen[key] {
+							seen[key] = true
+							t.Errorf("%s matrix %s gap-open %d reference %q query %q: %v", al.name, nm.name, open, rw, qw, err)
+						}
+					}
+				}
+			}
+		}
+	}
+	var ids []string
+	for id := range findings {
+		ids = append(ids, id)
+	}
+	sort.Strings(ids)
+	for _, id := range ids {
+		fmt.Printf("FINDING id=%s cases=%d example=%q\n", id, findings[id], examples[id])
+	}
+	fmt.Printf("BOUNDED name=%s.aligners cases=%d nontrivial=%d exhaustive=true domain=\"all six aligners (plain and quality letters), every pair of sequences of length 1..%d over %q, %d matrices (ties, asymmetric, zero gaps, harsh mismatch), gap-open in %v; oracle enumerates every alignment path\"\n", which, cases, nontrivial, maxLen, letters, len(verifMatrices()), opens)
+}
+
+// TestVerifBounded_C08_Optimal: the returned alignment's total score is the optimum of its class.
+func TestVerifBounded_C08_Optimal(t *testing.T) { verifRun(t, "C08") }
+
+// TestVerifBounded_C09_WellFormed: monotone abutting path, faithful segment scores, plain == quality, Format.
+func TestVerifBounded_C09_WellFormed(t *testing.T) { verifRun(t, "C09") }
+
+// TestVerifBounded_C09_Errors: ill-typed input gives an error, never a panic.
+func TestVerifBounded_C09_Errors(t *testing.T) {
+	cases, nontrivial := 0, 0
+	m := verifMatrix(1, -1, -1, -1, false)
+	try := func(what string, f func() error) {
+		cases++
+		defer func() {
+			if e := recover(); e != nil {
+				t.Errorf("%s: panic %v", what, e)
+			}
+		}()
+		if err := f(); err == nil {
+			t.Errorf("%s: no error", what)
+		} else {
+			nontrivial++
+		}
+	}
+	for _, al := range verifAligners {
+		al := al
+		a := al.mk(m, -1)
+		for _, w := range []string{"a", "ac", "acg", "acgt"} {
+			for pos := 0; pos < len(w); pos++ {
+				bad := []byte(w)
+				bad[pos] = 'x'
+				good, goodq := verifSeqs(w)
+				ill, illq := verifSeqs(string(bad))
+				try(fmt.Sprintf("%s illegal letter at %d of reference %q", al.name, pos, bad), func() error { _, err := a.Align(ill, good); return err })
+				try(fmt.Sprintf("%s illegal letter at %d of query %q", al.name, pos, bad), func() error { _, err := a.Align(good, ill); return err })
+				try(fmt.Sprintf("%s illegal letter at %d of quality reference %q", al.name, pos, bad), func() error { _, err := a.Align(illq, goodq); return err })
+				try(fmt.Sprintf("%s illegal letter at %d of quality query %q", al.name, pos, bad), func() error { _, err := a.Align(goodq, illq); return err })
+			}
+		}
+		s, sq := verifSeqs("acgt")
+		other := linear.NewSeq("o", alphabet.BytesToLetters([]byte("acgt")), alphabet.DNA)
+		try(al.name+" differing alphabets", func() error { _, err := a.Align(s, other); return err })
+		try(al.name+" differing sequence types", func() error { _, err := a.Align(s, sq); return err })
+		try(al.name+" differing sequence types (quality reference)", func() error { _, err := a.Align(sq, s); return err })
+		ragged := verifMatrix(1, -1, -1, -1, false)
+		ragged[2] = ragged[2][:3]
+		try(al.name+" ragged matrix", func() error { _, err := al.mk(ragged, -1).Align(s, s); return err })
+		short := verifMatrix(1, -1, -1, -1, false)[:3]
+		for i := range short {
+			short[i] = short[i][:3]
+		}
+		try(al.name+" undersized matrix", func() error { _, err := al.mk(short, -1).Align(s, s); return err })
+		try(al.name+" empty matrix", func() error { _, err := al.mk(Linear{}, -1).Align(s, s); return err })
+	}
+	fmt.Printf("BOUNDED name=C09.errors cases=%d nontrivial=%d exhaustive=true domain=\"all six aligners: an illegal letter at every position of reference or query (lengths 1..4, plain and quality), differing alphabets, differing sequence types, ragged, undersized and empty matrices\"\n", cases, nontrivial)
+}
